@@ -1,10 +1,14 @@
 #!/bin/bash
-# try_seeded.sh <seeded-id> <check-id> [...]: apply the seeded patch to /repo, run the quick checks, undo.
+# try_seeded.sh <seeded-id> <check-id> [...]: apply the seeded patch to a scratch worktree of /repo's
+# HEAD (/tmp/wt-mut), run the quick checks against it (POLYSIM_REPO), undo. /repo is never touched.
 id=$1; shift
-git -C /repo apply /verif/seeded/$id/patch.diff || { echo "patch does not apply"; exit 2; }
+wt=/tmp/wt-mut
+if [ ! -d $wt ]; then git -C /repo worktree add --detach $wt HEAD >/dev/null 2>&1 || exit 2; fi
+git -C $wt checkout -q -- . ; git -C $wt checkout -q --detach $(git -C /repo rev-parse HEAD)
+git -C $wt apply /verif/seeded/$id/patch.diff || { echo "patch does not apply"; exit 2; }
+mkdir -p /verif/out
 for c in "$@"; do
-  /verif/check $c quick > /verif/out/try-$id-$c.log 2>&1; rc=$?
+  POLYSIM_REPO=$wt /verif/check $c quick > /verif/out/try-$id-$c.log 2>&1; rc=$?
   echo "seeded=$id check=$c exit=$rc $(grep -c '^VIOLATION' /verif/out/try-$id-$c.log) violation line(s): $(grep -m2 '^violation' /verif/out/try-$id-$c.log | cut -c1-300)"
 done
-git -C /repo checkout -- .
-rm -f /verif/replays/*
+git -C $wt checkout -q -- .
